@@ -1493,6 +1493,11 @@ func main() {
 			continue
 		}
 		// the worker is stuck inside the real code (it does not touch r any more)
+		if cs, ok := curSearch.Load().(scase); ok && cs.Leg != "" {
+			r.Fail("hang", fmt.Sprintf("search leg %s/%s (n=%d seed=%d): a call did not return (%.1f s without an answer, heap %d MB): the real code loops", cs.Leg, cs.Variant, cs.N, cs.Seed, float64(idle)/10, ms.HeapAlloc>>20), cs)
+			r.Finish()
+			os.Exit(0)
+		}
 		ops, _ := curOps.Load().([]string)
 		i := int(atomic.LoadInt64(&curIdx))
 		if i >= len(ops) {
@@ -1511,6 +1516,14 @@ func main() {
 
 func work(r *hxlib.Run) {
 	if r.Replay != "" {
+		var sc scase
+		r.LoadReplay(&sc)
+		if sc.Leg != "" { // a case of a search leg (search.go): regenerated from its parameters
+			r.Case()
+			runSearchCase(sc).report(r, sc)
+			r.Sample(sc)
+			return
+		}
 		var c caseJSON
 		r.LoadReplay(&c)
 		r.Case()
@@ -1670,5 +1683,12 @@ func work(r *hxlib.Run) {
 		g := mk()
 		g.bulk(100000, "random", "random", true)
 		run(g, "bulk-100000")
+	}
+	if r.Search {
+		if r.Failed() {
+			r.Note("search legs not run: the thorough generators already produced a failing input")
+		} else {
+			searchLegs(r)
+		}
 	}
 }
